@@ -83,21 +83,21 @@ def Pkt.encode (p : Pkt) : Bytes := p.toMsg.encode
 def parseStrictAux : Nat → Bytes → List Pkt → (List Pkt × Bytes)
   | 0, bs, acc => (acc.reverse, bs)
   | fuel + 1, bs, acc =>
-    if bs.length < 24 then (acc.reverse, bs) else
-    match unpack (bs.take 24), unpackMagic (bs.take 24) with
+    let hdr := bs.take 24
+    if hdr.length < 24 then (acc.reverse, bs) else
+    match unpack hdr, unpackMagic hdr with
     | some h, some mg =>
       match Cmd.ofWire? h.cmd with
       | none => (acc.reverse, bs)
       | some c =>
         let body := bs.drop 24
+        let data := body.take h.len
         if mg ≠ magicOf h.cmd then (acc.reverse, bs)
-        else if body.length < h.len then (acc.reverse, bs)
-        else
-          let data := body.take h.len
-          if checksum data ≠ h.sum then (acc.reverse, bs)
-          else parseStrictAux fuel (body.drop h.len) (⟨c, h.arg0, h.arg1, data⟩ :: acc)
+        else if data.length < h.len then (acc.reverse, bs)
+        else if checksum data ≠ h.sum then (acc.reverse, bs)
+        else parseStrictAux fuel (body.drop h.len) (⟨c, h.arg0, h.arg1, data⟩ :: acc)
     | _, _ => (acc.reverse, bs)
 
-def parseStrict (bs : Bytes) : List Pkt × Bytes := parseStrictAux (bs.length + 1) bs []
+def parseStrict (bs : Bytes) : List Pkt × Bytes := parseStrictAux (bs.length / 24 + 1) bs []
 
 end Adb
